@@ -289,7 +289,7 @@ def param_arg(call, callee, pname):
     return kwarg(call, pname)
 
 
-def trace_path_sites(prog, fi, pname, depth=0, seen=None):
+def trace_path_sites(prog, fi, pname, depth=0, seen=None, defined_at=None):
     """Follow the path value held by parameter/local `pname` of `fi`; return the opener sites it reaches:
     [(function, opener_call, family, mode)].  Anything the path flows into that is not a recognised
     opener, repository function, pass-through or harmless sink is an unrecognised shape."""
@@ -303,6 +303,8 @@ def trace_path_sites(prog, fi, pname, depth=0, seen=None):
         if not (isinstance(n, ast.Name) and n.id == pname):
             continue
         if isinstance(n.ctx, ast.Store):
+            if defined_at is not None and n is defined_at:
+                continue  # the single assignment that made this local an alias of the path
             raise AnalysisError("%s rebinds the trace path variable %s" % (fi.qualname, pname))
         expr = n
         par = pmap.get(id(expr))
@@ -315,7 +317,7 @@ def trace_path_sites(prog, fi, pname, depth=0, seen=None):
         if isinstance(par, (ast.FormattedValue, ast.JoinedStr, ast.Compare, ast.BoolOp, ast.If, ast.IfExp, ast.Assert)):
             continue
         if isinstance(par, ast.Assign) and len(par.targets) == 1 and isinstance(par.targets[0], ast.Name) and par.value is expr:
-            sites += trace_path_sites(prog, fi, par.targets[0].id, depth, seen)
+            sites += trace_path_sites(prog, fi, par.targets[0].id, depth, seen, defined_at=par.targets[0])
             continue
         if isinstance(par, ast.Attribute) and isinstance(pmap.get(id(par)), ast.Call) and par.attr in ("format", "endswith", "startswith"):
             continue
@@ -343,6 +345,89 @@ def trace_path_sites(prog, fi, pname, depth=0, seen=None):
             target = callee.params[idx[0]]
         sites += trace_path_sites(prog, callee, target, depth + 1, seen)
     return sites
+
+
+# --------------------------------------------------------------------------- F3
+FRAME_WRITERS = {"to_csv", "to_pickle", "to_json", "to_hdf", "to_parquet", "to_feather", "to_excel", "tofile"}
+PATH_WRITERS = {"numpy.save", "numpy.savez", "numpy.savez_compressed", "numpy.savetxt", "shutil.copy", "shutil.copyfile", "shutil.move", "os.rename", "os.replace"}
+PATH_READERS = {"pandas.read_csv", "pandas.read_table", "pandas.read_pickle", "pandas.read_json", "pandas.read_parquet", "numpy.load", "numpy.loadtxt", "numpy.genfromtxt"}
+
+
+def _file_sites(prog, fi, bound, depth=0, seen=None):
+    """File reads / writes in `fi` and the repository functions it calls (depth <= 2).  `bound`: local names that
+    hold the trace path unchanged.  Yields (function, call, 'r'|'w', path expression, is_trace_path)."""
+    seen = seen if seen is not None else set()
+    if fi.qualname in seen or depth > 2:
+        return []
+    seen.add(fi.qualname)
+    bound = set(bound)
+    for n in ast.walk(fi.node):  # aliases of the path through pass-through calls
+        if isinstance(n, ast.Assign) and len(n.targets) == 1 and isinstance(n.targets[0], ast.Name):
+            v = strip_pass_through(n.value, fi.module)
+            if isinstance(v, ast.Name) and v.id in bound:
+                bound.add(n.targets[0].id)
+    out = []
+
+    def is_trace(e):
+        e = strip_pass_through(e, fi.module)
+        return isinstance(e, ast.Name) and e.id in bound
+
+    for c in calls(fi.node):
+        name = canon(c, fi.module)
+        if name in OPENERS:
+            fam, path, mode = opener_info(c, fi.module)
+            if path is not None:
+                out.append((fi, c, "w" if is_write_mode(mode) else "r", path, is_trace(path)))
+            continue
+        if isinstance(c.func, ast.Attribute) and c.func.attr in FRAME_WRITERS and (c.args or kwarg(c, "path_or_buf") is not None):
+            path = c.args[0] if c.args else kwarg(c, "path_or_buf")
+            out.append((fi, c, "w", path, is_trace(path)))
+            continue
+        if name in PATH_WRITERS and c.args:
+            out.append((fi, c, "w", c.args[-1] if name.startswith(("shutil", "os.")) else c.args[0], is_trace(c.args[0])))
+            continue
+        if name in PATH_READERS and c.args:
+            out.append((fi, c, "r", c.args[0], is_trace(c.args[0])))
+            continue
+        callee = resolve_callee(prog, c, fi.module)
+        if callee is not None and callee.module.name.startswith("phyclone.process_trace"):
+            inner = set()
+            for i, a in enumerate(c.args):
+                if is_trace(a) and i < len(callee.params):
+                    inner.add(callee.params[i])
+            for k in c.keywords:
+                if k.arg and is_trace(k.value):
+                    inner.add(k.arg)
+            out += _file_sites(prog, callee, inner, depth + 1, seen)
+    return out
+
+
+def rule_F3(ctx):
+    """One artefact: what a run leaves behind for the summary commands is the single trace stream, so that "the
+    trace is whole" (F1/F2: one frame, strict load) means "the result is whole".  A second file written by the
+    run's output step, or read by a summary command next to the trace, is a part of the result that no
+    truncation check covers: a crash between the two writes leaves a trace every command accepts."""
+    prog = ctx.prog
+    ctx.rule("F3", "one artefact: the run's output step writes the trace path only; each summary command reads the trace path only", 4)
+    writer = prog.fn("create_main_run_output")
+    if "out_file" not in writer.params:
+        raise AnalysisError("create_main_run_output has no out_file parameter")
+    ws = [s for s in _file_sites(prog, writer, {"out_file"}) if s[2] == "w"]
+    if not ws:
+        raise AnalysisError("create_main_run_output writes no file")
+    for fi, c, rw, path, ok in ws:
+        ctx.check(ok, "F3", "create_main_run_output: `%s` writes the trace path" % u(c)[:60], fi.where(c), "the run's output step also writes %s: the result is split over two files, and a run interrupted between them leaves a complete-looking trace without its companion" % u(path)[:80], construct=fi.qualname, stmt="second output file")
+    for r in READERS:
+        f = prog.fn("process_trace." + r)
+        if "in_file" not in f.params:
+            raise AnalysisError("%s has no in_file parameter" % r)
+        rs = [s for s in _file_sites(prog, f, {"in_file"}) if s[2] == "r"]
+        if not rs:
+            raise AnalysisError("%s reads no file" % r)
+        for fi, c, rw, path, ok in rs:
+            ctx.check(ok, "F3", "%s: `%s` reads the trace path" % (r, u(c)[:60]), fi.where(c), "the summary command also reads %s: a part of the run's result lives outside the trace stream, where no truncation check applies" % u(path)[:80], construct=fi.qualname, stmt="second input file")
+        ctx.analysed(f)
+    ctx.analysed(writer)
 
 
 # --------------------------------------------------------------------------- F1
@@ -801,6 +886,7 @@ def run(ctx):
     rule_P0(ctx)
     f1 = rule_F1(ctx)
     rule_F2(ctx, f1)
+    rule_F3(ctx)
 
 
 # --------------------------------------------------------------------------- self-test catalogue
@@ -812,6 +898,9 @@ _MAP_OLD = "    with gzip.GzipFile(in_file, \"rb\") as fh:\n        results = pi
 _CONS_OLD = "    with gzip.GzipFile(in_file, \"rb\") as fh:\n        results = pickle.load(fh)\n\n    data = results[0][\"data\"]\n\n    trees = []\n"
 _TOP_OLD = "    with gzip.GzipFile(in_file, \"rb\") as fh:\n        results = pickle.load(fh)\n\n    print(\"\\nExtracting unique topologies from sample trace.\")\n"
 SELFTEST = [
+    {"name": "F3-cluster-table-in-a-second-file", "kind": "break", "rule": "F3", "file": _PT, "old": _W_OLD, "new": _W_OLD + "    if cluster_file is not None:\n        pd.read_csv(cluster_file, sep=\"\\t\").to_csv(\"{}.clusters.tsv\".format(out_file), sep=\"\\t\")\n"},
+    {"name": "F3-reader-takes-data-from-a-sidecar", "kind": "break", "rule": "F3", "file": _PT, "old": _MAP_OLD, "new": _MAP_OLD.replace("    data = results[0][\"data\"]\n", "    data = results[0][\"data\"]\n    if os.path.exists(in_file + \".clusters.tsv\"):\n        results[0][\"clusters\"] = pd.read_csv(in_file + \".clusters.tsv\", sep=\"\\t\")\n")},
+    {"name": "benign-F3-path-through-str", "kind": "benign", "file": _PT, "old": _W_OLD, "new": "    target = str(out_file)\n    with gzip.GzipFile(target, mode=\"wb\") as fh:\n        pickle.dump(results, fh)\n"},
     # ---- breaking: writer
     {"name": "F1-dump-per-chain-in-loop", "kind": "break", "rule": "F1", "file": _PT, "old": _W_OLD,
      "new": "    with gzip.GzipFile(out_file, mode=\"wb\") as fh:\n        for chain_num, chain_result in results.items():\n            pickle.dump({chain_num: chain_result}, fh)\n"},
